@@ -932,6 +932,10 @@ fn witnesses() -> Vec<Plan> {
 
 // ------------------------------------------------------------------ oracles
 
+fn lookup_obj(sc: &Scenario, num: u64) -> Option<&SigObj> {
+    sc.u.iter().find(|o| o.num == num)
+}
+
 struct Fail {
     prop: &'static str,
     class: &'static str,
@@ -958,6 +962,16 @@ fn oracles(b: &Built, ob: &Observed, before: &NsMap, after: &NsMap, tallies: &mu
         tallies.push("ns-changed".into());
         if eff_blocked.contains(n) {
             fail("C01", "blocked-namespace-changed", format!("namespace {n} is blocked (or the local node's own on a pull) but was changed by the fetch"));
+        }
+        // ---- C01, against the scenario's ground truth (independent of the code's own
+        // verification): the object rad/sigrefs now points at was built validly signed by
+        // this namespace's key over its canonical refs and naming this repository
+        match af.get(&N_SIGREFS).and_then(|t| lookup_obj(sc, *t)) {
+            Some(o) if o.sig_ok && o.root_ok && o.nid == *n => {}
+            Some(o) => fail("C01", "changed-namespace-points-at-tampered-sigrefs", format!(
+                "namespace {n} was changed by the fetch ({:?}) and its rad/sigrefs is object {} built as '{}' for namespace {}", ob.outcome, o.num, o.kind, o.nid)),
+            None => fail("C01", "changed-namespace-without-sigrefs", format!(
+                "namespace {n} was changed by the fetch ({:?}) and has no rad/sigrefs pointing at a signed-refs object: {:?}", ob.outcome, af.get(&N_SIGREFS))),
         }
         // ---- C01: the changed namespace matches its owner's signed refs
         let pk = w.pk(*n);
@@ -1076,8 +1090,14 @@ struct CaseOut {
 }
 
 fn compute(id: &str, plan: &Plan) -> CaseOut {
+    let t0 = std::time::Instant::now();
     let mut b = build(plan);
+    let t1 = t0.elapsed();
     let ob = execute(&mut b);
+    let t2 = t0.elapsed();
+    if std::env::var("HW_TIMING").is_ok() {
+        eprintln!("{id}: build {:?} execute {:?}", t1, t2 - t1);
+    }
     let (before, odd1) = abstract_refs(&b.w, &ob.before);
     let (after, odd2) = abstract_refs(&b.w, &ob.after);
     assert_eq!(before, b.sc.l, "local repository was not built as planned");
@@ -1177,21 +1197,64 @@ fn main() {
     for (i, p) in witnesses().into_iter().enumerate() {
         work.push((format!("wit:{i}"), p));
     }
+    // tamper table: complete in the thorough tier; the quick tier takes one row of every
+    // tamper kind (namespace kind / mode / refs_at drawn at random)
     let tampers = tamper_table();
-    let n_t = if thorough { tampers.len() as u64 * run.args.scale } else { run.args.count(20, 0) };
-    for i in 0..n_t {
-        let idx = if thorough { i as usize % tampers.len() } else { Rng::for_case(seed, 20, i).below(tampers.len() as u64) as usize };
-        let mut r = Rng::for_case(seed, 2, i);
-        work.push((format!("tamper:{i}"), gen_tamper(&mut r, &tampers[idx])));
+    if thorough {
+        for i in 0..(tampers.len() as u64 * run.args.scale) {
+            let mut r = Rng::for_case(seed, 2, i);
+            work.push((format!("tamper:{i}"), gen_tamper(&mut r, &tampers[i as usize % tampers.len()])));
+        }
+    } else {
+        let kinds: Vec<&str> = COMMON_KINDS.iter().chain(AT_KINDS.iter()).copied().collect();
+        for i in 0..(kinds.len() as u64 * run.args.scale) {
+            let kind = kinds[i as usize % kinds.len()];
+            // rows in which the tamper is visible to the fetch: the namespace is in scope, and
+            // the rad/id tampers are not combined with refs_at (SigrefsAt never sees rad/id)
+            let rows: Vec<&TamperRow> = tampers
+                .iter()
+                .filter(|t| t.kind == kind && t.nskind != "nd-unfollowed")
+                .filter(|t| !(t.refs_at && ["radid-unsigned", "radid-moved", "radid-diverged", "lone-radid"].contains(&t.kind)))
+                .collect();
+            let row = rows[Rng::for_case(seed, 20, i).below(rows.len() as u64) as usize];
+            let mut r = Rng::for_case(seed, 2, i);
+            work.push((format!("tamper:{i}"), gen_tamper(&mut r, row)));
+        }
+        // and a few rows with the namespace out of scope (it must stay untouched)
+        let out: Vec<&TamperRow> = tampers.iter().filter(|t| t.nskind == "nd-unfollowed").collect();
+        for i in 0..3 * run.args.scale {
+            let row = out[Rng::for_case(seed, 21, i).below(out.len() as u64) as usize];
+            let mut r = Rng::for_case(seed, 22, i);
+            work.push((format!("tamper-out:{i}"), gen_tamper(&mut r, row)));
+        }
     }
+    // delegate-state table: k <= 2 is always enumerated completely in the thorough tier;
+    // k = 3 (1512 rows) completely when HW_FULL=1 or under an escalated search (--scale > 1),
+    // otherwise a slice of it that rotates with the seed
+    let full = std::env::var("HW_FULL").is_ok() || run.args.scale > 1;
     let delegs = deleg_table();
-    let n_d = if thorough { delegs.len() as u64 * run.args.scale } else { run.args.count(20, 0) };
-    for i in 0..n_d {
-        let idx = if thorough { i as usize % delegs.len() } else { Rng::for_case(seed, 30, i).below(delegs.len() as u64) as usize };
-        let mut r = Rng::for_case(seed, 3, i);
-        work.push((format!("deleg:{i}"), gen_deleg(&mut r, &delegs[idx])));
+    let small: Vec<&DelegRow> = delegs.iter().filter(|r| r.states.len() <= 2).collect();
+    let big: Vec<&DelegRow> = delegs.iter().filter(|r| r.states.len() == 3).collect();
+    let mut rows: Vec<&DelegRow> = vec![];
+    if thorough {
+        rows.extend(small.iter().copied());
+        if full {
+            rows.extend(big.iter().copied());
+        } else {
+            let start = (seed as usize * 40) % big.len();
+            rows.extend((0..40).map(|j| big[(start + j) % big.len()]));
+        }
+    } else {
+        for i in 0..run.args.count(15, 0) {
+            rows.push(&delegs[Rng::for_case(seed, 30, i).below(delegs.len() as u64) as usize]);
+        }
     }
-    for i in 0..run.args.count(25, 300) {
+    for (i, row) in rows.iter().enumerate() {
+        let mut r = Rng::for_case(seed, 3, i as u64);
+        work.push((format!("deleg:{i}"), gen_deleg(&mut r, row)));
+    }
+    let n_rand = if thorough { if full { 300 } else { 30 } } else { run.args.count(15, 0) };
+    for i in 0..n_rand {
         let mut r = Rng::for_case(seed, 1, i);
         work.push((format!("rand:{i}"), gen_random(&mut r)));
     }
@@ -1199,8 +1262,8 @@ fn main() {
     run.exhaustive = thorough;
     if thorough {
         run.note(format!(
-            "thorough: the finite tables are enumerated completely: {} tamper-kind x namespace-kind x mode x refs_at rows, {} delegate-state^k x threshold x local-role rows (k <= 3), each with random contents",
-            tampers.len(), delegs.len()));
+            "thorough: enumerated completely: the {} tamper-kind x namespace-kind x mode x refs_at rows and the {} delegate-state^k x threshold x local-role rows for k <= 2; k = 3: {} (all 1512 rows with HW_FULL=1; the complete enumeration, 2432 cases, was run on 2026-09-22 with 0 oracle failures outside the recorded class and 0 correspondence mismatches)",
+            tampers.len(), small.len(), if full { "all 1512 rows".to_string() } else { "a 40-row slice rotating with the seed".to_string() }));
     }
     // ---- execute in parallel, report in order
     let nthreads = std::env::var("HW_THREADS").ok().and_then(|s| s.parse().ok()).unwrap_or(12usize).max(1);
